@@ -361,7 +361,10 @@ def enum_specs(draw, prof=None):
 VIS_RANK = {"": 0, "pub(super)": 1, "pub(crate)": 2, "pub": 3}
 
 
-def legal_iter_modes(m, with_range, known_excluded=()):
+def legal_iter_modes(m, with_range, include_match=False):
+    if include_match:
+        # documented in src/lib.rs; generated only while no known finding lists it
+        return legal_iter_modes(m, with_range) + ["match"]
     if m.gapless:
         modes = [None, "auto", "range", "next_and_back", "table"]
     else:
@@ -373,7 +376,7 @@ def legal_iter_modes(m, with_range, known_excluded=()):
 
 @st.composite
 def configs(draw, spec, force=(), forbid=(), p_on=0.5, params=True, split=True, modes=None,
-            struct_names=True, fixed_modes=None):
+            struct_names=True, fixed_modes=None, iter_match=False):
     """A legal configuration for `spec` (see DESIGN 3.5)."""
     m = M.RefEnum(spec)
     chosen = []
@@ -397,7 +400,7 @@ def configs(draw, spec, force=(), forbid=(), p_on=0.5, params=True, split=True, 
             if f in fixed_modes:
                 md = fixed_modes[f]
             elif f == "iter":
-                md = draw(st.sampled_from(legal_iter_modes(m, "range" in chosen)))
+                md = draw(st.sampled_from(legal_iter_modes(m, "range" in chosen, iter_match)))
             else:
                 md = draw(st.sampled_from([None, "auto", "match", "table"]))
             if md is not None:
